@@ -222,7 +222,14 @@ func (g *beh) explains(df defects, names []string, errText string) bool {
 
 // attribute finds a smallest set of listed defects whose mechanism-level prediction is
 // exactly the observation. ok=false: nothing listed predicts it.
-func (g *beh) attribute(names []string, errText string) (set []string, ok bool) {
+func (g *beh) attribute(names []string, marked []string, errText string) (set []string, ok bool) {
+	// a zero read of the first variable of a pair by the second one, although the first
+	// one is logged before it, only happens when the pair is ordered and run as a unit
+	needPair := false
+	pr := g.pairSelfReaders()
+	for _, m := range marked {
+		needPair = needPair || pr[m]
+	}
 	masks := make([]int, 0, 127)
 	for m := 1; m < 128; m++ {
 		masks = append(masks, m)
@@ -237,6 +244,9 @@ func (g *beh) attribute(names []string, errText string) (set []string, ok bool) 
 	sort.SliceStable(masks, func(i, j int) bool { return bits(masks[i]) < bits(masks[j]) })
 	for _, m := range masks {
 		df := defectsFromMask(m)
+		if needPair && !df.PairUnit {
+			continue
+		}
 		if g.explains(df, names, errText) {
 			for i, n := range defectNames {
 				if df.get(i) {
